@@ -48,14 +48,29 @@ def check(ctx):
         "the adaptive quadrature keeps its default (1.49e-8) or explicit tolerances of at most 1e-6 and at least 50 subintervals: the three routes agree to quadrature accuracy",
     )
     fv = a.get("func")
-    if not isinstance(fv, FuncV):
-        raise AnalysisError(f"{qh}: the quad integrand is not a local function")
-    fi = fv.info
+    from ..values import LambdaV, PartialV, TupV
+
+    if not isinstance(fv, (FuncV, PartialV, LambdaV)):
+        raise AnalysisError(f"{qh}: the quad integrand is not a function, a partial or a lambda of the package")
+    fi = fv.info if isinstance(fv, FuncV) else fh
     ctx.touch(fi.qualname)
     # compared by value: only the z-factor (a numerical root) is kept as an atom; the library's viscosity is evaluated at the
-    # integration variable and must appear - whether the integrand calls viscosity_Sutton or a worker it shares with it
+    # integration variable and must appear - whether the integrand calls viscosity_Sutton or a worker it shares with it.
+    # The integrand is evaluated the way quad calls it, f(q, *args), inside the trace that built it (a closure, a
+    # module-level function with args=, a functools.partial with keywords are then the same thing)
     itc = interp(ctx, opaque={ZQ})
-    pc = only(itc.run_function(fi.qualname, args={fi.params[0]: Num(nf.sym(Q))}), fi.qualname, ctx, "C08-a")
+
+    def run_integrand(x):
+        x.enter(fh, x.symbolic_args(fh), None, None, None)
+        qe = [e for e in x.events if e.kind == "ext_call" and e.data["callee"] == "scipy.integrate.quad"]
+        if len(qe) != 1:
+            raise AnalysisError(f"{qh}: expected one quad call")
+        f_, extra = qe[0].data["args"].get("func"), qe[0].data["args"].get("args")
+        more = list(extra.items) if isinstance(extra, TupV) else ([] if extra is None else [extra])
+        x.log("marker", qe[0].node, name="integrand evaluation")
+        return x.call(f_, [Num(nf.sym(Q))] + more, {}, qe[0].node, None)
+
+    pc = only(itc.explore(run_integrand), qh + ":integrand", ctx, "C08-a")
     own = ["temperature", Q, "temperature_pseudocritical", "pressure_pseudocritical"]
     z = nf.fn(ZQ, *[nf.sym(n) for n in own])
     mu_q = only(run(ctx, VQ, opaque={ZQ}, args={"pressure": Num(nf.sym(Q))}), VQ, ctx, "C08-a").value.nf
